@@ -106,3 +106,86 @@ def cleanup_stale():
                 shutil.rmtree(os.path.join(base, n), ignore_errors=True)
             except PermissionError:
                 pass
+
+
+# --------------------------------------------------------------------------- cold server
+import socket
+import struct
+
+
+def _send_msg(sock, data):
+    sock.sendall(struct.pack("!I", len(data)) + data)
+
+
+def _recv_exact(sock, n):
+    buf = b""
+    while len(buf) < n:
+        b = sock.recv(n - len(buf))
+        if not b:
+            return None
+        buf += b
+    return buf
+
+
+def _recv_msg(sock):
+    h = _recv_exact(sock, 4)
+    if h is None:
+        return None
+    return _recv_exact(sock, struct.unpack("!I", h)[0])
+
+
+class ColdServer:
+    """A fork server created BEFORE the zygote warms up: its children are completely
+    cold pristine processes (no warm parser DFA, no lazily imported sympy printers).
+    The server itself never executes blackbird code; it only forks.  Jobs are calls of
+    bbsim.child.run_plan."""
+
+    def __init__(self):
+        self.sock, other = socket.socketpair()
+        sys.stdout.flush()
+        self.pid = os.fork()
+        if self.pid == 0:
+            try:
+                self.sock.close()
+                self._serve(other)
+            finally:
+                os._exit(0)
+        other.close()
+
+    def _serve(self, sock):
+        from . import child
+        while True:
+            msg = _recv_msg(sock)
+            if msg is None:
+                return
+            job = json.loads(msg.decode())
+            try:
+                val = fork_run(child.run_plan, *job["args"], timeout=job.get("timeout"), **job["kwargs"])
+                out = {"ok": True, "value": val}
+            except HarnessError as e:
+                out = {"ok": False, "error": str(e)}
+            _send_msg(sock, json.dumps(out).encode())
+
+    def run(self, fn, *args, timeout=None, **kwargs):
+        _send_msg(self.sock, json.dumps({"args": list(args), "kwargs": kwargs, "timeout": timeout}).encode())
+        self.sock.settimeout((timeout or CHILD_TIMEOUT) + 10)
+        try:
+            msg = _recv_msg(self.sock)
+        except socket.timeout:
+            raise HarnessError("cold server timed out")
+        if msg is None:
+            raise HarnessError("cold server died")
+        out = json.loads(msg.decode())
+        if not out["ok"]:
+            raise HarnessError("cold child: " + out["error"])
+        return out["value"]
+
+    def close(self):
+        try:
+            self.sock.close()
+        except OSError:
+            pass
+        try:
+            os.waitpid(self.pid, 0)
+        except ChildProcessError:
+            pass
